@@ -102,8 +102,13 @@ def handle_exception_table():
     classes = [("exc", False, Exception), ("AbortTest", False, lcc.AbortTest), ("AbortSuite", False, lcc.AbortSuite),
                ("AbortAllTests", False, lcc.AbortAllTests), ("AbortTest", True, TestGivesUp),
                ("AbortSuite", True, SuiteUnusable), ("AbortAllTests", True, EnvironmentDown)]
+    # what the exception object is constructed with: one message string (what the framework's own tests do), nothing, the
+    # exception that was caught (`raise lcc.AbortTest(e)`), a number, a message and a code, two strings — the decision and the
+    # number of error logs must not depend on it (the model reads the class only), and handle_exception itself must not raise
+    shapes = [("str", lambda: ("boom",)), ("none", lambda: ()), ("exc", lambda: (ValueError("caught"),)), ("int", lambda: (404,)),
+              ("two", lambda: ("boom", 7)), ("twostr", lambda: ("boom", "giving up"))]
     rows = []
-    for (kind, sub, cls) in classes:
+    for (kind, sub, cls), (shape, mk_args) in itertools.product(classes, shapes):
         for with_suite in (False, True):
             suite, other = Suite(None, "s", "s"), Suite(None, "o", "o")
             inner = Suite(None, "sub", "sub")
@@ -114,17 +119,63 @@ def handle_exception_table():
             other.add_test(t_other)
             sess = Sess()
             ctx = RunContext(sess, None, False, False)
+            raised = None
             try:
-                raise cls("boom")
+                raise cls(*mk_args())
             except Exception as e:          # handle_exception reads the implicit traceback of the handled exception
-                if with_suite:
-                    ctx.handle_exception(e, suite)
-                else:
-                    ctx.handle_exception(e)
+                try:
+                    if with_suite:
+                        ctx.handle_exception(e, suite)
+                    else:
+                        ctx.handle_exception(e)
+                except Exception as e2:
+                    raised = type(e2).__name__
             skipped = [bool(ctx.is_task_to_be_skipped(TestTask(t, None))) for t in (t_same, t_sub, t_other)]
             effect = {(False, False, False): "none", (True, False, False): "abortSuite", (True, True, True): "abortAll"}.get(
                 tuple(skipped), "other:%r" % (skipped,))
             out = "%s+%derr" % (effect, len(sess.errors))
+            if raised:
+                out = "handle_exception-raised:" + raised
             lean_in = '("%s", %s, %s)' % (kind, "true" if sub else "false", "true" if with_suite else "false")
-            rows.append((lean_in, '"%s"' % out, {"class": cls.__name__, "base": kind, "subclass": sub, "suite_given": with_suite, "out": out}))
+            rows.append((lean_in, '"%s"' % out, {"class": cls.__name__, "base": kind, "subclass": sub, "suite_given": with_suite, "args": shape, "out": out}))
     return C.Table("handleExcTable", "List ((String × Bool × Bool) × String)", rows)
+
+
+def run_outcome_table():
+    """How a run ends for its caller, obtained by EXECUTING the real `run_suites` (under the run-level recorder) on a
+    three-test project for every combination of: a reporting backend that raises (on an early event / on a late one /
+    never) x a keyboard interrupt while the caller waits for a completion (early / late / never).  Row input: the
+    facts of that run (interrupt delivered, backend raised, report successful); output: what the caller saw — the
+    returned verdict, or the class of the raised error and whether it carries the backend's original text."""
+    from run import observe as O
+    from run import oracles as X
+    from run.selftest import _p, _s, _t, _LOG
+    project = _p([_s("s0", [_t("t0", [], [_LOG]), _t("t1", [], [_LOG], rank=2), _t("t2", [], [_LOG], rank=3)])])
+    rows, seen = [], set()
+    for fault_k in (None, 1, 9):
+        for interrupt in (None, ["get", 1], ["get", 3]):
+            fault = None if fault_k is None else {"k": fault_k, "cls": "Custom", "text": "T"}
+            obs = O.run_project(project, strategy="off", interrupt_at=interrupt, backend_fault=fault)
+            interrupted = any(r[0] == "interrupt" for r in obs["trace"])
+            failed = any(r[0] == "backend-raise" for r in obs["trace"])
+            rep = obs.get("report")
+            successful = bool(rep) and all(res["status"] in ("passed", "disabled") for _, res in X._all_results(rep))
+            oc = obs["outcome"]
+            if "returned" in oc:
+                out = "returned:%s" % str(oc["returned"]).lower()
+            elif oc.get("raised") == "KeyboardInterrupt":
+                out = "raised-KeyboardInterrupt"
+            elif "raised" in oc and "T" in oc.get("text", ""):
+                out = "raised-backend-error:T"
+            elif "raised" in oc:
+                out = "raised-other:" + oc["raised"]
+            else:
+                out = "hang"
+            key = (interrupted, failed, successful if not failed else False)
+            if (key, out) in seen:
+                continue
+            seen.add((key, out))
+            lean_in = "(" + ", ".join("true" if b else "false" for b in key) + ")"
+            rows.append((lean_in, '"%s"' % out, {"interrupt_at": interrupt, "fault_at_event": fault_k, "interrupted": interrupted,
+                                                 "backend_raised": failed, "successful": key[2], "out": out}))
+    return C.Table("runOutcomeTable", "List ((Bool × Bool × Bool) × String)", rows)
